@@ -298,6 +298,31 @@ def check_optimisation(c, spec, folder, lines, pending):
                        {"sign": s, "base": float(nb), "alias": float(nn)})
             if p.variable_is_discrete(n) != db:
                 c.fail("variable_is_discrete differs between %r and its alias %r" % (base, n), case)
+        # state goals on aliases: range = signed bounds, nominal positive, key toggles with the sign
+        def goal_of(name):
+            from rtctools.optimization.goal_programming_mixin_base import StateGoal
+
+            return type("G", (StateGoal,), {"state": name, "target_min": 0.0, "priority": 1})(p)
+
+        gb = _call(lambda: goal_of(base))
+        for n, s in members:
+            gn = _call(lambda: goal_of(n))
+            c.count(("mo-opt", "stategoal", spec["kinds"][base], s, gb[0]))
+            c.hit("mo-opt/stategoal")
+            if gb[0] != gn[0]:
+                c.fail("StateGoal on %r: %s, on its alias %r: %s" % (base, gb[0], n, gn[0]), case)
+            elif gb[0] == "ok":
+                rb, rn = to_wire(tuple(gb[1].function_range)), to_wire(tuple(gn[1].function_range))
+                kb, kn = gb[1].function_key, gn[1].function_key
+                toggled = kb[1:] if kb.startswith("-") else "-" + kb
+                if rn != spec_signed(s, rb):
+                    c.fail("StateGoal range through alias %r is not the signed range of %r" % (n, base), case,
+                           {"sign": s, "base": rb, "alias": rn})
+                if not (float(gn[1].function_nominal) == float(gb[1].function_nominal) > 0):
+                    c.fail("StateGoal nominal through alias %r differs / is not positive" % n, case,
+                           {"base": float(gb[1].function_nominal), "alias": float(gn[1].function_nominal)})
+                if kn != (kb if s > 0 else toggled):
+                    c.fail("StateGoal function_key of alias %r inconsistent with %r" % (n, base), case, {"base": kb, "alias": kn})
         # accessors: state_at through every name
         tq = [times[0], times[-1], (times[0] + times[1]) / 2]
         for t in tq:
